@@ -570,6 +570,10 @@ def run(ctx: Ctx, rep: Report, tier: str) -> None:
     sub = Report("C13")
     r05_9(ctx, sub, rid="R05.9")
     rep.absorb(sub, "R13.4")
+    # R13.11 ... and no caller can: the memo list is never handed out itself (C05 R05.14)
+    from .c05 import memo_not_handed_out
+
+    memo_not_handed_out(ctx, rep, rid="R13.11")
     # R13.5 the network list of a group is complete (C05 R05.12)
     from .c05 import expansion_covers_members
 
